@@ -299,8 +299,8 @@ def gen_other(rng, tier):
     for _ in range(rng.randint(5, 20)):
         if kind == "dbn":
             a, b = rng.choice("ABCD"), rng.choice("ABCD")
-            ta = rng.choice([0, 0, 1])
-            tb = rng.choice([ta, ta, ta + 1, ta - 1, ta + 2])
+            ta = rng.choice([0, 0, 1, 2, 3])                 # an edge may be spelled in any slice: ((A, 2), (B, 2)) means the intra edge A -> B
+            tb = rng.choice([ta, ta, ta, ta + 1, ta - 1, ta + 2])
             ops.append(rng.choice([["edge", [a, ta], [b, tb]], ["edge", [a, ta], [b, tb]], ["node", a], ["copy"]]))
         elif kind == "jt":
             cl = [sorted(rng.sample("ABCDE", rng.randint(1, 3))) for _ in range(2)]
